@@ -61,6 +61,10 @@ Definition apply_call (es0 : list entry) (es : list entry) (c : call) : list ent
 Definition es_of (es0 : list entry) (l : list call) : list entry :=
   fold_left (apply_call es0) l es0.
 
+(* the decision that corresponds to an outcome *)
+Definition decision_of (o : soutcome) : decision :=
+  match o with OAdded => DAdd | OUpdated => DUpdate | _ => DDone o end.
+
 (* static side conditions on a call; [H] = all headers in play *)
 Definition ok_call (H : list bytes) (c : call) : Prop :=
   In (cl_tid c) H /\ wf_entry (cl_tid c, cl_snap c) /\
@@ -119,3 +123,42 @@ Record sched_inv (H : list bytes) (es0 : list entry) (prog : list (list call))
                        trace es0 t = map (spec_outcome es0) pg /\
                        proj g l ++ unlogged t = pg
 }.
+
+(* ---------- counting outcomes ---------- *)
+
+Definition is_o (o : soutcome) (x : nat * soutcome) : bool :=
+  match o, snd x with
+  | OPassed, OPassed | OAdded, OAdded | OUpdated, OUpdated => true
+  | _, _ => false
+  end.
+Definition is_err (x : nat * soutcome) : bool :=
+  match snd x with OFailedNotFound | OFailedDiff => true | _ => false end.
+
+(* ---------- the counterexample for the Pinned protocol ---------- *)
+Section Example.
+  Import String.
+  Local Open Scope string_scope.
+  Definition ex_tidA : bytes := B "[TestA - 1]".
+  Definition ex_tidB : bytes := B "[TestB - 1]".
+  Definition ex_old : bytes := B "old".
+  Definition ex_new : bytes := B "new value".
+  Definition ex_snapB : bytes := B "a rather long text stored by goroutine B".
+  Definition ex_file : option bytes := Some (frame ex_tidA ex_old).
+  (* goroutine 0 (A) updates its existing entry; goroutine 1 (B) creates a new one *)
+  Definition ex_callA : call :=
+    {| cl_tid := ex_tidA; cl_snap := ex_new; cl_same := fun b => beq b ex_new;
+       cl_create := true; cl_update := true |}.
+  Definition ex_callB : call :=
+    {| cl_tid := ex_tidB; cl_snap := ex_snapB; cl_same := fun b => beq b ex_snapB;
+       cl_create := true; cl_update := true |}.
+  Definition ex_prog : list (list call) := [[ex_callA]; [ex_callB]].
+  (* B: RLock Read RUnlock | A: RLock Read RUnlock Lock Open Read
+     | B: Mkdir Open Append (unlocked) | A: Trunc Write Unlock *)
+  Definition ex_sched_lost : list nat := [1;1;1; 0;0;0; 0;0;0; 1;1;1; 0;0;0].
+  (* ... | A: ... Lock Open Read Trunc | B: Mkdir Open Append | A: Write Unlock *)
+  Definition ex_sched_torn : list nat := [1;1;1; 0;0;0; 0;0;0;0; 1;1;1; 0;0].
+  (* what is left of B's frame behind A's rewrite in the torn run *)
+  Definition ex_residue : bytes := B "text stored by goroutine B
+---
+".
+End Example.
